@@ -50,10 +50,15 @@ type cfg struct {
 	Preempt   int
 	Env       int
 	BigBody   bool // responses carry 40-byte bodies over 3 blocks (SZX16)
+	Large     bool // responses carry 3000-byte payloads in one message (larger than the pooled message's buffers)
 }
 
 func (c cfg) String() string {
-	return fmt.Sprintf("%s callers=%d con=%v blockwise=%v bigbody=%v collide=%q token-family=%v preempt<=%d env<=%d", c.T, c.K, c.CON, c.BlockWise, c.BigBody, c.Collide, c.TokFamily, c.Preempt, c.Env)
+	l := ""
+	if c.Large {
+		l = " payload=3000"
+	}
+	return fmt.Sprintf("%s callers=%d con=%v blockwise=%v bigbody=%v collide=%q token-family=%v preempt<=%d env<=%d%s", c.T, c.K, c.CON, c.BlockWise, c.BigBody, c.Collide, c.TokFamily, c.Preempt, c.Env, l)
 }
 
 type caller struct {
@@ -312,6 +317,9 @@ func scenario(c cfg, mk func() transport) *mcx.Scenario {
 						if c.BigBody {
 							body = body + strings.Repeat("+", 40-len(body))
 						}
+						if c.Large {
+							body = body + strings.Repeat("=", 3000-len(body))
+						}
 						nonceOf[body] = p.idx
 						p.body = body
 						m := message.Message{Code: codes.Content, Token: p.tok, Payload: []byte(body)}
@@ -488,6 +496,7 @@ func main() {
 			// (sizes measured: udp K=3 CON with preemption 1 exceeds 20 M executions even without deviations; preemption 0 / 1 deviation = 5.3 M)
 			scs = append(scs, scenario(cfg{T: t.name, K: 3, CON: con, Preempt: ev.Pick(r, 0, map[bool]int{true: 0, false: 1}[con]), Env: ev.Pick(r, map[bool]int{true: 0, false: 1}[con], map[bool]int{true: 1, false: 2}[con])}, mk))
 			scs = append(scs, scenario(cfg{T: t.name, K: 2, CON: con, BlockWise: true, BigBody: true, Preempt: ev.Pick(r, 0, 1), Env: 1}, mk))
+			scs = append(scs, scenario(cfg{T: t.name, K: 2, CON: con, Large: true, Preempt: 0, Env: ev.Pick(r, 0, 1)}, mk))
 			if r.Thorough() {
 				// (CON exchanges have ~4x the choice points of NON ones: preemption 2 with one deviation, or two deviations with preemption 1)
 				scs = append(scs, scenario(cfg{T: t.name, K: 2, CON: con, Preempt: 2, Env: map[bool]int{true: 0, false: 2}[con]}, mk))
